@@ -321,11 +321,20 @@ def add_named_inline_members(draw, m):
     one or two structs that exported interfaces reach."""
     reach = M.reachable_types(m)
     aggs = [t for t in m["types"] if t["kind"] == "struct" and t["name"] in reach and not t.get("tpl") and not t.get("cname")]
-    if not aggs:
-        return
     shapes = [[("w", "int"), ("h", "int")], [("g", "float"), ("l", "short"), ("r", "short")], [("d", "double")],
               [("a", "unsigned int"), ("b", "float")], [("p", "long")], [("c0", "char"), ("c1", "char"), ("s", "short"), ("i", "int")]]
-    hosts = [_pick(draw, aggs) for _ in range(draw(st.integers(1, 2)))]
+    # two dedicated host structs, each used by a function of its own in one translation unit, so that the order in which the
+    # two anonymous structs are met depends on the order of the functions
+    tu = draw(st.integers(0, M.ntus(m) - 1))
+    hosts = []
+    for q in range(2):
+        h = {"kind": "struct", "name": "nh%d" % q, "members": [{"name": "tag", "type": ["b", "int"], "bits": None}]}
+        m["types"].append(h)
+        hosts.append(h)
+        m["funcs"].append({"name": "use_nh%d" % q, "ret": ["b", "int"], "params": [{"name": "p", "type": ["p", ["n", h["name"]]]}],
+                           "variadic": False, "tu": tu, "body": draw(st.integers(0, 3))})
+    if aggs and draw(st.booleans()):
+        hosts.append(_pick(draw, aggs))
     k = 0
     for pair in range(draw(st.integers(1, 2))):
         cv = _pick(draw, ["c", "c", "v", None])
